@@ -125,7 +125,17 @@ class RealRouter:
         self.got = {}
         self.rule_pats = {}
         self.churn = rng.random() < 0.3
+        self.texts = {}
+        self.cur_filters = {}
         self.churned = 0
+
+    def note_text(self, pat, rule, filters):
+        # a successful registration either found the route with these very filters or created it: spellings recorded for the
+        # pattern under other filters belong to a route that is gone
+        if self.cur_filters.get(pat) != filters:
+            self.texts[pat] = set()
+            self.cur_filters[pat] = filters
+        self.texts[pat].add(rule)
 
     def handler(self, hid):
         if hid not in self.handlers:
@@ -152,6 +162,7 @@ class RealRouter:
         from ombott.router.errors import RouteMethodError, RouteBuildError
         from ombott.router.radidict import RadiDictError
         k = op['op']
+        pending = None
         if self.churn and self.rng.random() < 0.1:
             # meanwhile another router of the process (a plug-in, a mounted application) registers typed rules of its own:
             # many distinct filter specifications pass through whatever the filter factory shares between routers
@@ -179,6 +190,7 @@ class RealRouter:
                     verbs = verbs[0]
                 via = self.rng.choice(['router', 'router', 'add_route', 'route'])
                 rule, h, name = self.text(r, op.get('flavour')), self.handler(r['id']), r['name'] or None
+                pending = (tuple(r['pat']), rule, tuple(r['filters']))
                 if via == 'router':
                     self.router.add(rule, verbs, h, name, overwrite=op['ow'])
                 elif via == 'add_route':
@@ -220,10 +232,14 @@ class RealRouter:
                     self.router.remove_hook(self.text(op['r'], op.get('flavour')))
             else:
                 raise core.MachineryError('unknown op ' + k)
+            if pending:
+                self.note_text(*pending)
             return 'ok'
         except RouteMethodError:
             return 'rejected:method'
         except RouteBuildError:
+            if pending:       # (a registration refused for its NAME has installed its route)
+                self.note_text(*pending)
             return 'rejected:name'
         except RadiDictError:
             return 'rejected:filter'
@@ -241,7 +257,20 @@ class RealRouter:
         except (AttributeError, TypeError, KeyError, IndexError, ImportError):
             # private tree layout changed: no step-by-step comparison with the mechanism model (DRIFT); verdicts do not use it
             tree = {'unprojectable': 1}
-        return {'tree': tree,
+        # lookup by rule (router[{rule}]) with every spelling a pattern was registered under: which patterns are found, and
+        # which spellings of a listed route fail to find it
+        found, miss = set(), set()
+        for pat, texts in self.texts.items():
+            for t in sorted(texts):
+                try:
+                    rt = r[{t}]
+                except Exception:   # noqa
+                    rt = None
+                if rt is not None:
+                    found.add(tuple(s2l(rt.pattern)))
+                elif l2s(list(pat)) in r.routes:
+                    miss.add(pat)
+        return {'tree': tree, 'byrule': sorted(map(list, found)), 'byrule_miss': sorted(map(list, miss)),
                 'routes': sorted(s2l(p) for p in r.routes),
                 'named': sorted([n, s2l(rt.pattern)] for n, rt in r.named_routes.items()),
                 'hooks': sorted(s2l(p) for p in r.hooks)}
